@@ -273,6 +273,27 @@ func hsScenario(spec *hsSpec) *Scenario {
 				o.SnapIL = [2]bool{!spec.A.NoInterleave, !spec.B.NoInterleave}
 			}
 			f := runWireMonitors(m, x, o)
+			// an endpoint whose connect call has returned successfully is established: it must
+			// not originate handshake packets any more (a handshake timer left armed would)
+			for i := 0; i < 2; i++ {
+				var okAt time.Duration = -1
+				for _, h := range x.Hist {
+					if (h.Call == fmt.Sprintf("dial%d", i) || h.Call == fmt.Sprintf("snap%d", i)) && h.Result == "err=<nil>" {
+						okAt = h.At
+					}
+				}
+				if okAt < 0 {
+					continue
+				}
+				for _, ev := range x.Events {
+					if ev.Kind == "send" && ev.From == i && ev.At > okAt && ev.Pkt.dec != nil && len(ev.Pkt.dec.Chunks) > 0 {
+						if t := ev.Pkt.dec.Chunks[0].Typ; t == wINIT || t == wCOOKIEECHO {
+							m.Failf("handshake.leftover", "endpoint %d sent %s at %v although its connect call had returned successfully at %v (a handshake timer is still running)", i, wTypeName(t), ev.At, okAt)
+							break
+						}
+					}
+				}
+			}
 			if spec.SilentPeer != 0 {
 				// bounded number of handshake transmissions, error reported, bounded time
 				want := ErrHandshakeInitAck
